@@ -150,6 +150,15 @@ pub fn apply(obj: &mut Object, op: &str) -> String {
             *obj = obj.clone();
             "ok".into()
         }
+        "clonefrom" => {
+            // clone_from into an independently created object (its own hasher state, other entries)
+            let mut other = Object::new();
+            other.push(key(0), val(0));
+            other.push(key(3), val(1));
+            other.clone_from(obj);
+            *obj = other;
+            "ok".into()
+        }
         "take" => {
             let t = std::mem::take(obj);
             *obj = t;
@@ -183,6 +192,14 @@ pub fn queries_str(obj: &Object, nkeys: usize) -> String {
         // index nkeys is the absent key
         let kk = if i == nkeys { Key::from("absent") } else { key(i) };
         let k = kk.as_str();
+        let styles = styles_agree(&|| obj.get(k), &|v| v as *const Value)
+            && styles_agree(&|| obj.get_entries(k), &|e| e as *const Entry)
+            && styles_agree(&|| obj.get_with_index(k), &|(i, v)| (i, v as *const Value))
+            && styles_agree(&|| obj.get_entries_with_index(k), &|(i, e)| (i, e as *const Entry))
+            && styles_agree(&|| obj.indexes_of(k), &|i| i);
+        if !styles {
+            out.push_str("ITERATOR-STYLES-DISAGREE ");
+        }
         let uniq = match obj.get_unique(k) {
             Ok(None) => "none".to_string(),
             Ok(Some(v)) => format!("one:{}", vstr(v)),
@@ -273,6 +290,7 @@ fn op_instances(nkeys: usize, nvals: usize, len: usize) -> Vec<String> {
     }
     ops.push("sort".into());
     ops.push("clone".into());
+    ops.push("clonefrom".into());
     ops.push("take".into());
     ops.push("setat:0:7".into());
     ops.push("ext:0=1,1=0,0=1".into());
@@ -357,7 +375,7 @@ pub fn generate(args: &Args, out: &mut Out) {
                 17 => format!("goi:{k}:{v}"),
                 18 => format!("set:{k}:{}:{v}", r.below(3)),
                 19 => format!("setat:{}:{v}", r.below(len_guess + 1)),
-                20 => (*r.pick(&["clone", "take"])).to_string(),
+                20 => (*r.pick(&["clone", "take", "clonefrom"])).to_string(),
                 _ => format!(
                     "{}:{}",
                     r.pick(&["ext", "extp"]),
